@@ -46,6 +46,17 @@ def tokenize(ext, text):
     return [t for t in toks if t != ""], " "
 
 
+def declared_names(ext, tokens):
+    """names a file declares (modules / cells / models): replacing a token by one of them yields
+    recursive or mis-typed references rather than plainly unknown ones."""
+    kw = {".v": ("module",), ".edf": ("cell", "library"), ".eblif": (".model",)}[ext]
+    out = []
+    for a, b in zip(tokens, tokens[1:]):
+        if a.lower() in kw and b not in out and b not in ("(", ")"):
+            out.append(b.strip())
+    return out[:4]
+
+
 def faulted(tokens, sep, kind, i, repl=None):
     t = list(tokens)
     if kind == "truncate":
@@ -143,7 +154,10 @@ def worker(case):
     n_rejected = 0
     ref_probe = probe()
     before = core.mutable_globals_snapshot()
-    declared = set(tokens)
+    if isinstance(repl, str) and repl.startswith("@decl"):
+        repl = declared_names(ext, tokens)[int(repl[5:])]
+        if ext == ".v" and repl.startswith("\\"):
+            repl += " "
     for i in range(lo, min(hi, len(tokens) + (1 if kind == "truncate" else 0))):
         if kind != "truncate" and i >= len(tokens):
             break
@@ -154,7 +168,8 @@ def worker(case):
             f.write(body)
         outcome, n = guarded_parse(path)
         n_run += 1
-        tag = "%s:%s%s" % (fmt, kind if kind != "replace" else "replace-by-" + (repl or "nothing"), "" if policy == "DEFAULT" else ":under-" + policy)
+        rname = "declared-name" if str(case[5]).startswith("@decl") else (repl or "nothing")
+        tag = "%s:%s%s" % (fmt, kind if kind != "replace" else "replace-by-" + rname, "" if policy == "DEFAULT" else ":under-" + policy)
         if outcome == "hang":
             probs.append(("reader-hangs:" + tag, "token %d (%r)" % (i, tokens[min(i, len(tokens) - 1)])))
         elif outcome == "ok":
@@ -200,7 +215,7 @@ def cases(tier):
             out.append((fmt, which, "truncate", lo, lo + step, None))
             out.append((fmt, which, "delete", lo, lo + step, None))
             out.append((fmt, which, "duplicate", lo, lo + step, None))
-            for r in REPL:
+            for r in REPL + ["@decl%d" % k for k in range(len(declared_names(ext, tokenize(ext, text)[0])))]:
                 out.append((fmt, which, "replace", lo, lo + step, r))
     # the unfaulted files themselves (successful parses restore the policy they switched)
     for which in bases():
